@@ -153,3 +153,69 @@ example : (reorderIdx stdTyInfo c17cExample false).map (fun r => (r.order, r.gav
 example : (1, 5) ∈ (buildGraph stdTyInfo (clearReorder c17cExample) false).strong := by decide
 
 end Nject
+
+namespace Nject
+
+/-- when the loop of `topo.run` ends by itself (not for lack of fuel) the list of fixed providers is used up -/
+theorem loop_end (s : TopoS) : ∀ (fuel : Nat) (x : Topo), (Topo.loop s fuel x).fuelOut = false → (Topo.loop s fuel x).cannotReorder = []
+  | 0, x, h => by unfold Topo.loop at h; simp at h
+  | fuel + 1, x, h => by
+    unfold Topo.loop at h ⊢
+    cases hu : heapPop x.unblocked with
+    | some pr =>
+      obtain ⟨i, rest⟩ := pr
+      simp only [hu] at h ⊢
+      exact loop_end s fuel _ h
+    | none =>
+      simp only [hu] at h ⊢
+      cases hw : heapPop x.weakBlocked with
+      | some pr =>
+        obtain ⟨i, rest⟩ := pr
+        simp only [hw] at h ⊢
+        exact loop_end s fuel _ h
+      | none =>
+        simp only [hw] at h ⊢
+        cases hc : x.cannotReorder with
+        | nil => simp only [hc]
+        | cons i cr =>
+          simp only [hc] at h ⊢
+          exact loop_end s fuel _ h
+
+/-- **C17 (algorithm)**: `reorder` gives up only on providers marked Reorder -- a provider that may not move is
+    always placed (in its turn), for every provider list. -/
+theorem C17_only_reorder_providers_are_given_up (ti : TyInfo) (funcs : List CP) (hasInit : Bool) (r : ReorderOut)
+    (h : reorderIdx ti funcs hasInit = some r) (i : Nat) (hi : i ∈ r.gaveUp) :
+    ((clearReorder funcs).getD i default).reorder = true := by
+  have hterm := reorderIdx_terminates h
+  unfold reorderIdx at h
+  simp only [] at h
+  split at h
+  · cases h
+  · cases h
+    generalize hfs : clearReorder funcs = fs at *
+    have hs := reorderStatic_ok ti fs hasInit
+    have ⟨f0⟩ := topoInit_full ti fs hasInit
+    have ⟨f⟩ := loop_full hs (reorderFuel (buildGraph ti fs hasInit) fs) _ ⟨f0⟩
+    have hend := loop_end _ _ _ hterm
+    generalize hx : Topo.loop (topoStatic fs (buildGraph ti fs hasInit)) (reorderFuel (buildGraph ti fs hasInit) fs)
+      (topoInit fs (buildGraph ti fs hasInit) hasInit) = x at *
+    -- every fixed provider is done
+    have hm : (buildGraph ti fs hasInit).cannotReorder.length ≤ f.m := by
+      have := f.cr
+      rw [hend] at this
+      have hl := congrArg List.length this
+      simp at hl
+      omega
+    simp only [Topo.leftOver, List.mem_filter, List.mem_range, Bool.not_eq_true', List.contains_eq_mem, decide_eq_false_iff_not] at hi
+    cases hr : (fs.getD i default).reorder with
+    | true => rfl
+    | false =>
+      have hmem : i ∈ (buildGraph ti fs hasInit).cannotReorder := (hs.mem i).mpr ⟨hi.1, by simpa [topoStatic] using hr⟩
+      obtain ⟨j, hj⟩ := List.mem_iff_getElem?.mp hmem
+      have hjl : j < (buildGraph ti fs hasInit).cannotReorder.length := by
+        rcases Nat.lt_or_ge j (buildGraph ti fs hasInit).cannotReorder.length with hl | hg
+        · exact hl
+        · rw [List.getElem?_eq_none hg] at hj; cases hj
+      exact (hi.2 (f.crDone j i (by omega) hj)).elim
+
+end Nject
